@@ -166,7 +166,8 @@ class VariableLocationGate(ComposedGate):
         a, l = self.split_params(params)
         l = softmax(l, 10)
 
-        P = np.sum([a * s for a, s in zip(l, self.perms)], 0)
+        # As in get_unitary, the unitary is P^T (G x I) P
+        P = np.sum([a * s for a, s in zip(l, self.perms)], 0).T
         G = self.gate.get_unitary(a)
         G = np.kron(G, self.I)
         PG = P @ G
@@ -177,7 +178,7 @@ class VariableLocationGate(ComposedGate):
         dG = np.kron(dG, self.I)
         dG = P @ dG @ P.T
 
-        perm_array = np.array([perm for perm in self.perms])
+        perm_array = np.array([perm.T for perm in self.perms])
         dP = perm_array @ GPT + PG @ perm_array.transpose((0, 2, 1)) - 2 * PGPT
         dP = np.array([10 * x * y for x, y in zip(l, dP)])
         U = UnitaryMatrix.closest_to(PGPT, self.radixes)
